@@ -62,6 +62,7 @@ CATALOGUE = {
     "kg m-2": (d((M, 1), (L, -2)), 1.0, 0.0), "kg/m2": (d((M, 1), (L, -2)), 1.0, 0.0), "g cm-2": (d((M, 1), (L, -2)), 10.0, 0.0),
     # temperature (offset units)
     "K": (K, 1.0, 0.0), "kelvin": (K, 1.0, 0.0), "degC": (K, 1.0, 273.15), "celsius": (K, 1.0, 273.15),
+    "degF": (K, 5.0 / 9.0, 459.67 * 5.0 / 9.0), "degR": (K, 5.0 / 9.0, 0.0),  # scale and offset together
     "degrees_Celsius": (K, 1.0, 273.15), "degF": (K, 5.0 / 9.0, 459.67 * 5.0 / 9.0),
     # amount
     "mol": (N, 1.0, 0.0), "mmol": (N, 1e-3, 0.0), "mol/m3": (d((N, 1), (L, -3)), 1.0, 0.0), "mmol/l": (d((N, 1), (L, -3)), 1.0, 0.0),
